@@ -81,6 +81,11 @@ func checkURIParse(w *core.Worker, u []byte) (accepted bool) {
 	}
 	if p.URIType == sipsp.TELuri {
 		rest := u[sl:]
+		// "with an empty host" holds for every accepted tel: URI, whatever else it contains
+		if p.Host.Len != 0 {
+			fail("tel-host", fmt.Sprintf("ParseURI(%q): accepted tel: URI reported with host %q (user %q); the host of a tel: URI is empty", u, p.Host.Get(u), p.User.Get(u)))
+			return true
+		}
 		if !telNumberOnly(rest) {
 			w.Inc("tel_not_a_plain_number(not judged)")
 			return true
